@@ -27,21 +27,21 @@ open RdfModel RdfModel.Desc RdfModel.JL RdfModel.JLEnc
 variable {β : Type}
 
 /-- **Fragment writer.** For every well-formed dataset `d`, every injective labelling of its blank nodes
-    and all choices `ch` (processing mode, document base, inline context, nesting, lists, native values,
+    by non-empty labels and all choices `ch` (processing mode, document base, inline context, nesting, lists, native values,
     document shape, …), the document `write name d ch` is inside the fragment and denotes a dataset
     isomorphic to `d` (same quads up to an injective renaming of blank nodes, multiplicities kept). -/
-theorem write_denotes [DecidableEq β] (name : β → Str) (hname : Function.Injective name) (d : List (DQuad β))
-    (hwf : WFDataset d) (ch : Choices) :
+theorem write_denotes [DecidableEq β] (name : β → Str) (hname : Function.Injective name)
+    (hne : ∀ b, name b ≠ []) (d : List (DQuad β)) (hwf : WFDataset d) (ch : Choices) :
     ∃ out, toRdf ch.mode11 ch.base (write name d ch) = some out ∧ Spec.IsoQ out d :=
-  Proofs.C10.write_denotes name hname d hwf ch
+  Proofs.C10.write_denotes name hname hne d hwf ch
 
 /-- The expanded, flattened form (no context, one node object per quad) denotes the dataset itself, blank
     nodes relabelled by `name`; proved by evaluating the semantics symbolically, for every processing
     mode and base. -/
-theorem writeFlat_denotes (name : β → Str) (mode11 : Bool) (base : Option Str) (d : List (DQuad β))
-    (hwf : WFDataset d) :
+theorem writeFlat_denotes (name : β → Str) (hne : ∀ b, name b ≠ []) (mode11 : Bool) (base : Option Str)
+    (d : List (DQuad β)) (hwf : WFDataset d) :
     toRdf mode11 base (writeFlat name d) = some (d.map (DQuad.map (fun b => BN.orig (name b)))) :=
-  Proofs.C10.writeFlat_denotes name mode11 base d hwf
+  Proofs.C10.writeFlat_denotes name hne mode11 base d hwf
 
 /-- **Certificate lemma.** A forest that validates against `d` (`forestOK`: its quads are a permutation
     of `d`, the blank nodes it anonymises are pairwise distinct and are not used by identifier anywhere)
